@@ -19,8 +19,8 @@ META = {
     "back through their signals; Python-level check of the metrics-disabled clause on the real objects",
     "level_text": "c31_counter, c31_tagged(+_other), c31_hist_count_sum, c31_hist_min_max, c31_hist_buckets and "
     "c31_hist_bucket_log2 are proved for every register/sample width, every number of ways, every tag list and "
-    "every call history; c31_hist_buckets needs bucket_count >= 2 (bucket_count = 1 is finding F4, kept as a "
-    "witness). The models are tied to the code by cycle-exact comparison of done bits and all registers over "
+    "every call history and every bucket_count >= 1 (bucket_count = 1, the repaired finding F4, has its own "
+    "regression theorem c31_hist_one_bucket and is generated like any other configuration). The models are tied to the code by cycle-exact comparison of done bits and all registers over "
     "random/directed histories for many widths, way counts, tag sets (range / Enum / list, negative values, "
     "one-hot sets incl. the former F3 witnesses) and bucket configurations",
     "level_note": "trusted: Lean kernel, axioms propext/Classical.choice/Quot.sound; Amaranth semantics and pysim; "
@@ -360,11 +360,13 @@ def gen_cases(ctx: Check) -> dict[str, list[Case]]:
         dops += ["cyc t=" + _opt([v] * d["ways"]) for v in vals] + ["cyc t=" + _opt([None] * d["ways"])]
         tagged.append(Case(_cfg(d), dops, d, "witness-f3" if i < len(F3_WITNESSES) else "directed"))
         tagged.append(tagged_case(d, rng, n, 0.7))
-    # ---- HwExpHistogram (bucket_count >= 2; bucket_count = 1 is finding F4)
-    hc = [(2, 1, 3, 1), (2, 3, 3, 2), (3, 2, 4, 1), (4, 3, 2, 2), (5, 4, 6, 2), (6, 4, 5, 3), (3, 5, 4, 2), (7, 3, 6, 1), (6, 5, 32, 2), (9, 8, 5, 1)]
+    # ---- HwExpHistogram (bucket_count >= 1; the single-bucket case is the repaired finding F4)
+    hc = [(1, 3, 4, 1), (1, 1, 2, 2), (1, 4, 3, 3), (2, 1, 3, 1), (2, 3, 3, 2), (3, 2, 4, 1), (4, 3, 2, 2), (5, 4, 6, 2), (6, 4, 5, 3), (3, 5, 4, 2), (7, 3, 6, 1), (6, 5, 32, 2), (9, 8, 5, 1)]
     if ctx.thorough:
-        hc += [(nb, sw, 4, ways) for nb in range(2, 8) for sw in range(1, 6) for ways in (1, 3)]
-    hc += [(rng.randrange(2, 9), rng.randrange(1, 7), rng.randrange(1, 8), rng.randrange(1, 5)) for _ in range(ctx.pick(4, 30))]
+        hc += [(nb, sw, 4, ways) for nb in range(1, 8) for sw in range(1, 6) for ways in (1, 3)]
+    hc += [(rng.randrange(1, 9), rng.randrange(1, 7), rng.randrange(1, 8), rng.randrange(1, 5)) for _ in range(ctx.pick(4, 30))]
+    f4d = {"component": "HwExpHistogram", "n": 1, "sw": 3, "rw": 4, "ways": 1}
+    hists.append(Case(_cfg(f4d), ["cyc s=0", "cyc s=1", "cyc s=5", "cyc s=-"], f4d, "witness-f4"))
     for nb, sw, rw, ways in hc:
         d = {"component": "HwExpHistogram", "n": nb, "sw": sw, "rw": rw, "ways": ways}
         # directed: every sample value once (all values for small widths), then idle
@@ -502,7 +504,7 @@ def run(ctx: Check):
     ctx.rule = (
         "cases = (component, configuration, history of per-way calls); configurations: HwCounter (width, ways), "
         "TaggedCounter (tag set as range/Enum/IntEnum/list incl. negative values and one-hot sets, width, ways), "
-        "HwExpHistogram (bucket_count >= 2, sample width, register width, ways); non-trivial = a register wraps "
+        "HwExpHistogram (bucket_count >= 1, sample width, register width, ways); non-trivial = a register wraps "
         "around, or >= 2 ways are called in one cycle, or (tagged) a call carries a tag outside the tag set"
     )
     ctx.proof_stage()
@@ -522,12 +524,9 @@ def run(ctx: Check):
     for k, v in cases.items():
         ctx.count(f"configs_{k}", len({c.cfg for c in v}))
     ctx.count("onehot_tag_sets", len({c.cfg for c in cases["tagged"] if not isinstance(_sim(c.desc), Exception) and _sim(c.desc).dut.one_hot}))
-    f4 = replay_witness({"desc": {"component": "HwExpHistogram", "n": 1, "sw": 3, "rw": 4, "ways": 1},
-                         "ops": ["cyc s=0", "cyc s=1", "cyc s=5", "cyc s=-"]})
-    ctx.count("f4_witness_still_fails_on_impl", int(bool(f4)))  # informational; never an alarm here
-    ctx.note("HwExpHistogram(bucket_count=1) is excluded from generation (finding F4: the only bucket counts zero samples only); "
-             "witness: desc={component:HwExpHistogram,n:1,sw:3,rw:4,ways:1}, ops=[cyc s=0, cyc s=1, cyc s=5, cyc s=-]")
-
+    ctx.count("hist_single_bucket_cases", sum(1 for c in cases["hist"] if c.desc["n"] == 1))
+    ctx.note("HwExpHistogram(bucket_count=1) (former finding F4, repaired in /repo 0ffe71b) is generated and monitored like every "
+             "other configuration; the old witness is replayed through ctx.replay_findings when listed as `fixed:`")
 
 def replay(ctx: Check, body: dict):
     if body.get("check") == "disabled":
